@@ -5,6 +5,7 @@ import (
 	"verif/harness/checks/c02"
 	"verif/harness/checks/c03"
 	"verif/harness/checks/c04"
+	"verif/harness/checks/c05"
 	"verif/harness/checks/c06"
 	"verif/harness/checks/c07"
 	"verif/harness/checks/c08"
@@ -25,6 +26,7 @@ func init() {
 	register("C02", "exploration", c02.Run, c02.Replay)
 	register("C03", "exploration", c03.Run, c03.Replay)
 	register("C04", "fault_enumeration", c04.Run, c04.Replay)
+	register("C05", "model_checking", c05.Run, c05.Replay)
 	register("C06", "model_checking", c06.Run, c06.Replay)
 	register("C07", "exploration", c07.Run, c07.Replay)
 	register("C08", "exploration", c08.Run, c08.Replay)
